@@ -127,7 +127,8 @@ RecvBlocked(s) == \E i \in 1..Len(s.blocked) : s.blocked[i].who \in {"connack", 
 
 ---------------------------------------------------------------------------
 (* a call returns; ghost `subs`: subscriptions according to the API results *)
-RetRec(s, c, err) == [call |-> c, err |-> err, api |-> s.calls[c].api, qos |-> s.calls[c].qos, acked |-> s.calls[c].acked]
+RetRec(s, c, err) == [call |-> c, err |-> err, api |-> s.calls[c].api, qos |-> s.calls[c].qos, acked |-> s.calls[c].acked,
+                      term |-> FALSE]  \* term: returned because the client terminated (any error but nil)
 SubsAfter(s, c, err) ==
     LET k == s.calls[c]
     IN  IF err # "nil" THEN s.subs
@@ -137,11 +138,11 @@ SubsAfter(s, c, err) ==
              THEN {x \in s.subs : x.f # k.f}
         ELSE s.subs
 Return(r, c, err) ==
-    IF c \in DOMAIN r.s.calls
+    IF c \in DOMAIN r.s.calls /\ ~r.s.calls[c].term   \* a call already waiting for the end of the client returns then
     THEN [r EXCEPT !.s.calls = Del(@, c), !.s.subs = SubsAfter(r.s, c, err),
                    !.rets = @ \cup {RetRec(r.s, c, err)}]
     ELSE r
-Instant(s, a, err) == [call |-> a.call, err |-> err, api |-> a.api, qos |-> a.qos, acked |-> FALSE]
+Instant(s, a, err) == [call |-> a.call, err |-> err, api |-> a.api, qos |-> a.qos, acked |-> FALSE, term |-> FALSE]
 
 
 (* termination of the client (group context cancelled)                     *)
@@ -167,7 +168,7 @@ Terminate(r, werr, immediate) ==
                                        !.calls = [c \in DOMAIN s.calls |-> [s.calls[c] EXCEPT !.term = TRUE]]]]
         ELSE IF immediate
         THEN [r EXCEPT !.s = [s1 EXCEPT !.alive = FALSE, !.werr = werr, !.ended = TRUE, !.calls = EmptyFn],
-                       !.rets = r.rets \cup {RetRec(s, c, TermErr(s, werr, s.calls[c].api)) : c \in DOMAIN s.calls}]
+                       !.rets = r.rets \cup {[RetRec(s, c, TermErr(s, werr, s.calls[c].api)) EXCEPT !.term = TRUE] : c \in DOMAIN s.calls}]
         ELSE [r EXCEPT !.s = [s1 EXCEPT !.alive = FALSE, !.werr = werr, !.endDue = RT,
                                        !.calls = [c \in DOMAIN s.calls |->
                                                    [s.calls[c] EXCEPT !.term = TRUE,
@@ -481,7 +482,7 @@ FireKa(s) ==
 
 FireEnd(s) ==
     LET r == Res([s EXCEPT !.endDue = -1, !.ended = TRUE, !.calls = EmptyFn], <<>>, {})
-    IN [r EXCEPT !.rets = {RetRec(s, c, TermErr(s, s.werr, s.calls[c].api)) : c \in DOMAIN s.calls}]
+    IN [r EXCEPT !.rets = {[RetRec(s, c, TermErr(s, s.werr, s.calls[c].api)) EXCEPT !.term = TRUE] : c \in DOMAIN s.calls}]
 
 (* timers are named <<"tx", mid>>, <<"ty", type>>, <<"ka">>, <<"end">> *)
 DueTimers(s) ==
